@@ -80,9 +80,40 @@ def c19(payload):
             if rng.random() < 0.4:
                 # a distributed load: its value differs from pulse to pulse (grounded, junction and tapered pulses)
                 spec['loads'].append(dict(kind='skin', cond=float('%.3g' % 10 ** rng.uniform(5, 7.8))))
+            if (all(w.get('tag') is None for w in spec['wires']) and rng.random() < 0.5
+                    and not any(t.get('tag') is not None for t in spec.get('transforms', []) + spec.get('scales', []))
+                    and not any(s_.get('tag') is not None for s_ in spec['sources'])
+                    and not any(l_.get('tag') is not None or any(len(a_) > 1 and a_[1] is not None for a_ in l_.get('attach', [])) for l_ in spec['loads'])):
+                # tags that are not the positions of the objects: the connection columns print tags
+                for i_, w in enumerate(spec['wires']):
+                    w['tag'] = 7 + 2 * i_
             r['spec'] = spec
             m = gen.build(spec); m.compute()
             bad = []
+            # ---- environment: one block per medium, with its constants, the interface towards the next and the height of all but the first
+            if spec.get('media'):
+                et_ = m.environment_as_mininec()
+                blocks_ = re.split(r'(?m)^ RELATIVE DIELECTRIC CONSTANT, CONDUCTIVITY:', et_)
+                mm = re.search(r'NUMBER OF MEDIA[^:]*:\s*(\d+)', et_)
+                if not mm or int(mm.group(1)) != len(spec['media']):
+                    bad.append('environment: number of media %r, model has %d' % (mm and mm.group(1), len(spec['media'])))
+                if len(blocks_) - 1 != len(spec['media']):
+                    bad.append('environment: %d media blocks for %d media' % (len(blocks_) - 1, len(spec['media'])))
+                for i_, (bt, md) in enumerate(zip(blocks_[1:], spec['media'])):
+                    what = 'environment medium %d' % (i_ + 1)
+                    hd = bt.split('\n')[0].split(',')
+                    _chk(bad, what + ' dielectric constant', hd[0].strip(), md['perm'], 'f'); _chk(bad, what + ' conductivity', hd[1].strip(), md['cond'], 'f')
+                    mc = re.search(r'COORDINATE OF NEXT MEDIA INTERFACE:\s*(\S+)', bt); mh = re.search(r'HEIGHT OF MEDIA:\s*(\S+)', bt)
+                    last = i_ == len(spec['media']) - 1
+                    if (mc is None) != last:
+                        bad.append('%s: interface line %s' % (what, 'missing' if mc is None else 'printed for the last medium'))
+                    elif mc: _chk(bad, what + ' interface coordinate', mc.group(1), md['coord'], 'f')
+                    if (mh is None) != (i_ == 0):
+                        bad.append('%s: height line %s' % (what, 'missing' if mh is None else 'printed for the first medium'))
+                    elif mh: _chk(bad, what + ' height', mh.group(1), md.get('height', 0), 'f')
+                    mr = re.search(r'NUMBER OF RADIAL WIRES IN GROUND SCREEN:\s*(\d+)', bt)
+                    if bool(md.get('nradials')) != (mr is not None) or (mr and int(mr.group(1)) != md['nradials']):
+                        bad.append('%s: radial screen line %r, model has %r radials' % (what, mr and mr.group(1), md.get('nradials')))
             I = np.array(m.current)
             # ---- current table
             txt = m.currents_as_mininec().split('\n')
@@ -134,6 +165,14 @@ def c19(payload):
                         for ax in range(3):
                             _chk(bad, 'geometry row pulse %d coordinate %s' % (k + 1, 'XYZ'[ax]), tk[ax], p.point[ax], 'f')
                         _chk(bad, 'geometry row pulse %d radius' % (k + 1), tk[3], p.geobj.r_orig, 'f')
+                        for h in (0, 1):
+                            g_ = p.geo[h]
+                            # the grounded half prints minus the tag of its wire; any other half the tag (signed by the direction at a
+                            # junction) or 0 next to a free end
+                            want_ = -g_.tag if p.ground[h] else (int(tk[4 + h]) if abs(int(tk[4 + h])) in (0, g_.tag) else g_.tag)
+                            if int(tk[4 + h]) != want_:
+                                bad.append('geometry row pulse %d connection column %d: text %s, %s of object with tag %d gives %d' % (
+                                    k + 1, h + 1, tk[4 + h], 'the grounded half' if p.ground[h] else 'the half', g_.tag, want_))
             if gnums != list(range(len(m.pulses))):
                 bad.append('geometry table lists pulses %r, model has pulses 1..%d' % ([k + 1 for k in gnums][:40], len(m.pulses)))
             # ---- source data
